@@ -26,4 +26,13 @@ meta = {"seed": sid, "breaks_property": prop, "needs_to_manifest": needs, "confi
         "caught_by": [c for c, r in results.items() if r["exit"] == 1 and not any("no-failing-input-found" in l for l in r["lines"])],
         "caught_without_input_by": [c for c, r in results.items() if r["exit"] == 1 and any("no-failing-input-found" in l for l in r["lines"])],
         "missed_by": [c for c, r in results.items() if r["exit"] == 0]}
-json.dump(meta, open(os.path.join(dst, "meta.json"), "w"), indent=1)
+mp = os.path.join(dst, "meta.json")
+if os.path.exists(mp):
+    try:
+        old = json.load(open(mp))
+        for k in ("history", "first_run"):
+            if k in old: meta[k] = old[k]
+        if "first_run" not in meta and old.get("checks_run"):
+            meta["first_run"] = {"caught_by": old.get("caught_by"), "missed_by": old.get("missed_by"), "caught_without_input_by": old.get("caught_without_input_by")}
+    except Exception: pass
+json.dump(meta, open(mp, "w"), indent=1)
